@@ -276,9 +276,11 @@ func cmdCheck(args []string) int {
 	// report
 	violations := 0
 	var lines []string
+	var knownHit []string
 	for _, f := range failures {
 		if kf := known.match(*prop, f.name); kf != "" {
-			lines = append(lines, fmt.Sprintf("KNOWN-FINDING: property=%s %s", *prop, kf))
+			lines = append(lines, fmt.Sprintf("KNOWN-FINDING: %s", kf))
+			knownHit = append(knownHit, f.name)
 			continue
 		}
 		violations++
@@ -296,6 +298,16 @@ func cmdCheck(args []string) int {
 				fmt.Fprintf(&b, "\n--- counterexample (solver model) ---\n%s\n", summariseModel(model))
 				if rp := tryReplay(e, f.obl, model, replayDir); rp != nil {
 					fmt.Fprintf(&b, "\n--- replay on the real code ---\n%s\n", rp.Log)
+					if rp.Failed {
+						suffix = ""
+						fmt.Fprintf(&b, "replay test: %s\n", rp.TestFile)
+					}
+				}
+			} else if f.obl.Kind != "vacuity" {
+				// no model from the solver: search for a failing input near an
+				// input that reaches this program point
+				if rp := tryReplayMode(e, f.obl, replayDir, true); rp != nil {
+					fmt.Fprintf(&b, "\n--- no solver counterexample; concretisation search on the real code ---\n%s\n", rp.Log)
 					if rp.Failed {
 						suffix = ""
 						fmt.Fprintf(&b, "replay test: %s\n", rp.TestFile)
@@ -355,7 +367,8 @@ func cmdCheck(args []string) int {
 		"seed":        seed,
 		"level":       "proof",
 		"coverage": map[string]any{
-			"obligations":              len(obls),
+			"obligations":              len(obls) - len(knownHit),
+			"known_findings_not_counted": knownHit,
 			"discharged":               discharged,
 			"checker_cmd":              fmt.Sprintf("/verif/bin/gowp check -prop %s -tier %s", *prop, *tier),
 			"trusted_base":             tb,
